@@ -85,7 +85,7 @@ class UnitsEngine(Engine):
     max_ops = 40
     expected_probes = ['named_after_random', 'unseeded_reset', 'named_sweep_subsets', 'precedence_pow_before_mul',
                        'precedence_left_to_right_div', 'nested_parens', 'whitespace_variants', 'cross_epoch_compared',
-                       'style_fit_done', 'literal_with_unit', 'array_roundtrip', 'refused_reset_raised', 'integer_dtype_value', 'complex_value_roundtrip',
+                       'style_fit_done', 'literal_with_unit', 'array_roundtrip', 'refused_reset_raised', 'integer_dtype_value', 'complex_value_roundtrip', 'refused_expression_raised',
                        'scribble_on_literal_result', 'named_keywords_in_other_order', 'scribble_on_unit_table']
     rule = ('Each run is a history of up to 40 operations on the process-global unit tables: working-unit resets (seeded '
             'random, unseeded random through the patched random seam, SI, atomman default, named subsets of length/mass/'
@@ -176,7 +176,13 @@ class UnitsEngine(Engine):
         r = ctx.rng
         cfg = st['cfg']
         k = ctx.wchoice([('reset', cfg['w_reset']), ('roundtrip', 1.0), ('parse', 2.0), ('convert', 1.2), ('literal', 0.6),
-                         ('style', 0.6), ('refused', 0.3), ('sweep', 0.0 if st['swept'] else 0.25)])
+                         ('style', 0.6), ('refused', 0.3), ('sweep', 0.0 if st['swept'] else 0.25),
+                         ('badexpr', 0.0 if cfg.get('fault_free') else 0.5)])
+        if k == 'badexpr':
+            bad = r.choice(['Gpa', 'angstom', '(m/s', 'm/s)', 'kg*(m/(s*Gpa))', 'eV/(angstrom^3', '((m))/((s)*(furlong))', 'm**2',
+                            '(((((m/(s*(kg/(mol*(K/(Gpa)))))))))', 'nm $ s', 'kcal/mole', ')m('])
+            return {'op': 'badexpr', 'expr': bad, 'via': r.choice(['parse', 'set', 'get', 'literal']), 'reps': r.choice([1, 2, 2, 3, 8, 20]),
+                    'then': r.choice(['(kg * (m / s) ^ 2) / (mol * K)', 'eV/angstrom^3', 'GPa', '((nm))'])}
         if k == 'reset':
             kind = ctx.wchoice([('seed', 2), ('unseeded', 1), ('SI', 0.6), ('default', 0.6), ('named', 2.5)])
             op = {'op': 'reset', 'kind': kind}
@@ -269,6 +275,8 @@ class UnitsEngine(Engine):
         elif k == 'refused':
             self._refused(ctx, st, op)
             shape = op['what']
+        elif k == 'badexpr':
+            shape = self._badexpr(ctx, st, op)
         ctx.sig(st['prev_reset'], st['last_kind'], k, shape)
 
     # -- resets
@@ -439,6 +447,29 @@ class UnitsEngine(Engine):
             ctx.probe('whitespace_variants')
         ctx.ev('op', 'parse', {'expr': expr}, {'value': got})
         return '%s/p%d/pow%d/d%d' % (op.get('tag'), min(expr.count('('), 3), min(expr.count('^'), 2), min(expr.count('/'), 2))
+
+    def _badexpr(self, ctx, st, op):
+        """An expression the library cannot evaluate (unknown name, unbalanced parenthesis, stray sign), asked for several times by a
+        caller that catches the error (a column of values with a misspelt unit).  The statement does not say what the answer is; it
+        must be the same answer every time, and the next well-formed expression must evaluate as ever."""
+        expr, via = op['expr'], op['via']
+        fn = {'parse': lambda: uc.parse(expr), 'set': lambda: uc.set_in_units(98.6, expr), 'get': lambda: uc.get_in_units(98.6, expr),
+              'literal': lambda: uc.set_literal('98.6 ' + expr)}[via]
+        first = None
+        for k in range(int(op['reps'])):
+            ok, res = ctx.sut(fn)
+            out = ('value', float(np.asarray(res, dtype=float).reshape(-1)[0])) if ok else ('raised', type(res).__name__)
+            if first is None:
+                first = out
+            elif out != first:
+                raise Violation('C09.K2', {'what': 'the same ill-formed request was answered differently when repeated', 'expr': expr, 'via': via,
+                                           'first': list(first), 'repeat': k, 'now': list(out)}, klass='badexpr/inconsistent/' + via)
+        ctx.fault('refused_expression')
+        if first and first[0] == 'raised':
+            ctx.probe('refused_expression_raised')
+        self._parse(ctx, st, {'expr': op['then'], 'tag': 'after-refusal'})
+        ctx.ev('op', 'badexpr', {'expr': expr, 'via': via, 'reps': op['reps']}, {'first': list(first) if first else None})
+        return via
 
     def _convert(self, ctx, st, op):
         e1, e2 = op['e1'], op['e2']
